@@ -13,6 +13,7 @@ import os
 import re
 import shutil
 import struct
+import tempfile
 
 from vf import common, trace
 
@@ -228,11 +229,12 @@ def write_case(case, d):
 DUMP_RE = re.compile(r"^\s*(-?\d+)  (...)  (\S+)  (.*)$")
 
 
-def run_case(build, wd, case):
-    d = os.path.join(wd, "c%d" % case["k"])
+def run_once(build, d, case, order):
     res = {}
     try:
-        write_case(case, d)
+        c2 = dict(case)
+        c2["order"] = order
+        write_case(c2, d)
         rc, o, e = trace.run_tool(build, "ovnidump", ["-x"] if case["kind"] == "dump" else [], d)
         seq = []
         bad = None
@@ -276,6 +278,27 @@ def run_case(build, wd, case):
     finally:
         shutil.rmtree(d, ignore_errors=True)
     return res
+
+
+def run_case(build, wd, wd2, case):
+    """main run in wd (creation order case['order']); second run of the same streams in wd2 (a
+    different file system when available) with the directories created in the opposite order"""
+    res = run_once(build, os.path.join(wd, "c%d" % case["k"]), case, case["order"])
+    if wd2:
+        res["second"] = run_once(build, os.path.join(wd2, "c%d" % case["k"]), case, list(reversed(case["order"])))
+    return res
+
+
+def second_workdir():
+    """tmpfs lists a directory in reverse creation order, ext4 in hash order: two genuinely different
+    enumerations of the same streams"""
+    for base in ("/dev/shm",):
+        if os.path.isdir(base) and os.access(base, os.W_OK):
+            try:
+                return tempfile.mkdtemp(prefix="ovni-verif-c03-", dir=base)
+            except OSError:
+                pass
+    return None
 
 
 # ------------------------------------------------------------------ e2e: independent spec decider
@@ -471,10 +494,13 @@ def run(chk):
             c = gen_case(rng.fork("%s%d" % (kind, j)), len(cases), kind)
             cases.append(prepare(c))
     wd = trace.workdir()
+    wd2 = second_workdir() or trace.workdir()
+    chk.coverage["second_enumeration_dir"] = os.path.dirname(wd2)
     try:
-        results = trace.pmap(lambda c: run_case(build, wd, c), cases)
+        results = trace.pmap(lambda c: run_case(build, wd, wd2, c), cases)
     finally:
         shutil.rmtree(wd, ignore_errors=True)
+        shutil.rmtree(wd2, ignore_errors=True)
     mlines = []
     for c in cases:
         mlines.append(model_line(c, "D"))
@@ -539,6 +565,25 @@ def run(chk):
             if v != "ok" or [(a, b) for (a, b, _, _, _) in mseq] != [(a, b) for (a, b, _, _) in d["seq"]] \
                     or [(a, p) for (a, _, p, _, _) in mseq] != dseq:
                 corr_broken.append(("D", case_key(c), pub, d["seq"][:60], md[:600]))
+
+        # ---- independence from the enumeration order: same streams, other file system / creation order
+        r2 = r.get("second")
+        if r2 is not None:
+            diff = None
+            if r2["dump"]["seq"] != d["seq"] or r2["dump"]["rc"] != d["rc"]:
+                diff = "ovnidump output differs"
+            elif c["kind"] == "emu" and (r2["emu"]["verdict"], r2["emu"]["prv"]) != (r["emu"]["verdict"], r["emu"]["prv"]):
+                diff = "ovniemu verdict / thread.prv state records differ"
+            chk.count("e2e:second-enumeration=%s" % ("same" if diff is None else "DIFFERENT"))
+            if diff is not None and nviol < 6:
+                nviol += 1
+                first = next((n for n, (a, b) in enumerate(zip(d["seq"], r2["dump"]["seq"])) if a != b), None)
+                chk.violation("enum-order:" + case_key(c),
+                              "the result depends on the enumeration order of the stream directories: %s (first difference at line %s)" % (diff, first),
+                              {"case": pub, "creation_order_1": c["order"], "creation_order_2": list(reversed(c["order"])),
+                               "dir_1": "ext4 scratch", "dir_2": chk.coverage["second_enumeration_dir"],
+                               "ovnidump_1": [(a, b) for (a, b, _, _) in d["seq"][:80]],
+                               "ovnidump_2": [(a, b) for (a, b, _, _) in r2["dump"]["seq"][:80]]})
 
         # ---- ovniemu
         if c["kind"] == "emu":
